@@ -284,7 +284,12 @@ func shrinkFO(sc *Scenario, yield func(c *Scenario) bool) {
 	// configuration back to defaults
 	cfgMods := []func(c *FOScenario) bool{
 		func(c *FOScenario) bool { ok := c.Cfg.Logger; c.Cfg.Logger = false; return ok },
-		func(c *FOScenario) bool { ok := c.Cfg.Stats; c.Cfg.Stats = false; c.Cfg.ObserveMutability = false; return ok },
+		func(c *FOScenario) bool {
+			ok := c.Cfg.Stats
+			c.Cfg.Stats = false
+			c.Cfg.ObserveMutability = false
+			return ok
+		},
 		func(c *FOScenario) bool { ok := c.Cfg.SyncRead; c.Cfg.SyncRead = false; return ok },
 		func(c *FOScenario) bool { ok := c.Cfg.SyncUpdate; c.Cfg.SyncUpdate = false; return ok },
 		func(c *FOScenario) bool { ok := c.Cfg.FailHard; c.Cfg.FailHard = false; return ok },
